@@ -802,7 +802,7 @@ static void cx_model_file(cx_lmodel *lm, const cx_file *f, int fdepth)
             } else {
                 /* expanded for its side effects only */
                 if (lm->xm) { cx_buf o = { 0 }; cx_model_begin_expansion(lm->xm); cx_ref_expand(lm->xm, line, &o, 0);
-                              if (lm->xm->weak && !(lm->xm->refused && !strcasestr(line, "put"))) cx_lm_weak(lm, lm->xm->weak_why);      /* a refused expansion without %put has no side effect */
+                              if (lm->xm->weak && !(lm->xm->refused && !strcasestr(line, "%put"))) cx_lm_weak(lm, lm->xm->weak_why);      /* a refused expansion without %put has no side effect */
                               cx_buf_free(&o); }
                 else cx_lm_weak(lm, "directive line without an expansion model");
             }
@@ -826,7 +826,7 @@ static void cx_model_file(cx_lmodel *lm, const cx_file *f, int fdepth)
             if (cx_has_meta(line)) {
                 if (lm->xm) {
                     cx_buf o = { 0 }; cx_model_begin_expansion(lm->xm); cx_ref_expand(lm->xm, line, &o, 0);
-                    if (lm->xm->refused && !strcasestr(line, "put")) {
+                    if (lm->xm->refused && !strcasestr(line, "%put")) {
                         /* a call whose parentheses do not balance cannot be expanded: the line is still a line of the file and is delivered once --
                          * with which text (raw, partly expanded) the statement does not say */
                         cx_expect(lm->stack[lm->depth], 'T', line, l);
